@@ -15,6 +15,7 @@ def main(tier):
     fs = [2047, 2046, 2040] if tier == 'quick' else list(range(2016, 2048))
     jobs = [('audio', 'VerifSquareClock', {'ch': c}) for c in (1, 2)] + [('audio', 'VerifSquarePeriod', {'ch': c, 'f': f}) for c in (1, 2) for f in fs]
     jobs += [('audio', 'VerifWaveClock', {}), ('audio', 'VerifNoiseClock', {}), ('audio', 'VerifNoiseTrigger', {})]
+    jobs += [('audio', 'VerifApuPower', {'reg': 3})]   # the frequency the period is computed from is 0 after a power cycle
     common_jobs.run_audio_inv(ck)
     ck.run(jobs, timeout_ms=300000, max_unwind=200)
     ck.finish(explanation='one-clock countdown lemmas for the four channel timers and the noise shift register, plus bounded period unrollings')
